@@ -202,6 +202,8 @@ func c04Safe(op c04Op, fs afero.Fs, slots *c04Slots) (out string) {
 type c04Run struct {
 	fs    afero.Fs
 	ctr   int64
+	stop  int32 // set by a call that panicked: a recovered panic may leave a mutex locked (memmap.go
+	// unRegisterWithParent panics between parent.Lock and parent.Unlock), so nothing runs after it
 	ops   [][]c04Op
 	slots []*c04Slots
 	calls [][]c04Call
@@ -234,19 +236,34 @@ func c04Prepare(p *c04Prog) (*c04Run, *c04Hist) {
 }
 
 func (r *c04Run) call(g, i int) {
+	if atomic.LoadInt32(&r.stop) != 0 {
+		return
+	}
 	op := r.ops[g][i]
 	c := &r.calls[g][i]
 	c.Inv = atomic.AddInt64(&r.ctr, 1)
-	c.Res = c04Safe(op, r.fs, r.slots[g])
+	res := c04Safe(op, r.fs, r.slots[g])
 	c.Resp = atomic.AddInt64(&r.ctr, 1)
+	if res == "panic" {
+		atomic.StoreInt32(&r.stop, 1)
+	}
+	c.Res = res
 }
 
 func (r *c04Run) finish(h *c04Hist) {
 	for _, cs := range r.calls {
-		h.Calls = append(h.Calls, cs...)
+		for _, c := range cs {
+			if c.Res != "" && c.Resp != 0 { // calls that were made and returned
+				h.Calls = append(h.Calls, c)
+			}
+		}
 	}
-	h.Final = "hung"
-	if !h.Hung {
+	switch {
+	case h.Hung:
+		h.Final = "hung"
+	case atomic.LoadInt32(&r.stop) != 0:
+		h.Final = "skip" // after a recovered panic the final state is not inspected (a mutex may be held)
+	default:
 		h.Final = snapS(afero.VerifDump(r.fs))
 	}
 }
@@ -602,6 +619,9 @@ func (s *c04State) oracles(e *c04Emitted) {
 		}
 		bad := false
 		for _, cl := range h.Calls {
+			if cl.I >= len(p.solo[cl.G]) {
+				continue
+			}
 			if want := p.solo[cl.G][cl.I]; want != cl.Res {
 				c.Oracle("FAIL %s unrelated:result-changed goroutine %d call %d (%s) returned %s, alone it returns %s; the goroutines use disjoint subtrees",
 					id, cl.G, cl.I, c04Kind(cl.Item), cl.Res, want)
@@ -610,6 +630,9 @@ func (s *c04State) oracles(e *c04Emitted) {
 		}
 		got := c04SnapParts(h.Final)
 		for g, fp := range fps {
+			if !strings.HasPrefix(h.Final, "snap:") || !strings.HasPrefix(p.soloFin[g], "snap:") {
+				break
+			}
 			want := c04SnapParts(p.soloFin[g])
 			for top := range fp {
 				if got[top] != want[top] {
@@ -622,6 +645,32 @@ func (s *c04State) oracles(e *c04Emitted) {
 			c.Add("fail.unrelated", e.count)
 		}
 	}
+}
+
+// The signature of a non-linearizable history names the kinds of its core that have more than
+// one critical section in memmap.go (the possible culprits), at most three, most suspicious
+// first; a core without any such kind is written out in full ("nonlin:?...": unexpected).
+var c04MultiSection = []string{"OpenFile(excl)", "OpenFile(create)", "RemoveAll", "Mkdir", "MkdirAll", "Chmod", "Chtimes", "OpenFile(trunc)", "OpenFile"}
+
+func c04Culprits(kinds []string) string {
+	has := map[string]int{}
+	for _, k := range kinds {
+		has[k]++
+	}
+	var u []string
+	for _, k := range c04MultiSection {
+		if has[k] > 0 && len(u) < 3 {
+			u = append(u, k)
+			if has[k] > 1 && len(u) == 1 && (k == "OpenFile(excl)" || k == "OpenFile(create)" || k == "Mkdir") {
+				u = append(u, k) // e.g. OpenFile(excl)||OpenFile(excl): the race of a method with itself
+				break
+			}
+		}
+	}
+	if len(u) == 0 {
+		return "?" + c04Sig(kinds)
+	}
+	return strings.Join(u, "||")
 }
 
 // a kind is written once, or twice when it occurs two or more times
@@ -689,9 +738,10 @@ func (s *c04State) judge() {
 				}
 			}
 		}
-		sig := "nonlin:" + c04Sig(ks)
-		c.Oracle("FAIL %s %s no order of the %d calls respects real time and reproduces the results and the final state on the sequential model (%s); focus=%s mode=%s seen %d times",
-			e.id, sig, len(h.Calls), strings.Join(t[3:], " "), e.prog.Focus, e.mode, e.count)
+		sig := "nonlin:" + c04Culprits(ks)
+		coreKinds := c04Sig(ks)
+		c.Oracle("FAIL %s %s no order of the %d calls respects real time and reproduces the results and the final state on the sequential model (%s); core kinds %s; focus=%s mode=%s seen %d times",
+			e.id, sig, len(h.Calls), strings.Join(t[3:], " "), coreKinds, e.prog.Focus, e.mode, e.count)
 		c.Add("fail."+sig, e.count)
 		c.Sample(fmt.Sprintf("%s %s: setup %v | calls %v | final %s", e.id, sig, e.prog.Setup, h.Calls, h.Final))
 	}
